@@ -58,11 +58,11 @@ struct App {
     unsigned char puc;
     int           pint;
     // rParamI
-    int           pi_none, pi_midi, pi_sym, pi_neg, pi_frac, pi_min, pi_max, pi_wide;
+    int           pi_none, pi_midi, pi_sym, pi_neg, pi_frac, pi_min, pi_max, pi_wide, pi_special, pi_big24, pi_big31, pi_bigmax;
     short         pi_short;
     unsigned char pi_uc;
     // rParamF
-    float         pf_none, pf_midi, pf_sym, pf_neg, pf_frac, pf_min, pf_max, pf_dec;
+    float         pf_none, pf_midi, pf_sym, pf_neg, pf_frac, pf_min, pf_max, pf_dec, pf_special;
     double        pd_frac;
     // rToggle
     bool          t_bool;
@@ -86,6 +86,7 @@ struct App {
     PA_ARR(char, aiMax, 2);
     PA_ARR(int,  aiInt, 5);
     PA_ARR(char, aiDozen, 12);
+    PA_ARR(char, aiSpecial, 2);
     // rArrayF
     PA_ARR(float, afOne, 1);
     PA_ARR(float, afTwo, 2);
@@ -140,6 +141,10 @@ const rtosc::Ports App::ports = {
     rParamI(pi_wide, rLinear(-1000, 100000), "bounds beyond char and short"),
     rParamI(pi_short, rLinear(-1000, 1000), "short storage"),
     rParamI(pi_uc, rLinear(0, 127), "unsigned char storage"),
+    rParamI(pi_special, rSpecial(disable), rLinear(0, 127), "a valueless property with free text in front of the range"),
+    rParamI(pi_big24, rLinear(-16777217, 33554435), "bounds that no float holds exactly"),
+    rParamI(pi_big31, rLinear(-2000000001, 2000000001), "bounds next to the ends of int"),
+    rParamI(pi_bigmax, rMap(max, 100000001), "large max only"),
 
     rParamF(pf_none, "no range"),
     rParamF(pf_midi, rLinear(0, 127), "midi range"),
@@ -150,6 +155,7 @@ const rtosc::Ports App::ports = {
     rParamF(pf_max, rMap(max, 10.25), "max only"),
     rParamF(pf_dec, rLinear(0.1, 0.7), "bounds that are not binary fractions"),
     rParamF(pd_frac, rLinear(-0.5, 2.25), "double storage"),
+    rParamF(pf_special, rSpecial(disable), rLinear(-0.5, 2.25), "a valueless property with free text in front of the range"),
 
     rToggle(t_bool, "bool"),
     rToggle(t_int, "int storage"),
@@ -174,6 +180,7 @@ const rtosc::Ports App::ports = {
     rArrayI(aiMax, 2, rMap(max, 10), "max only"),
     rArrayI(aiInt, 5, rLinear(0, 127), "int storage"),
     rArrayI(aiDozen, 12, rLinear(0, 127), "two-digit indices"),
+    rArrayI(aiSpecial, 2, rSpecial(disable), rLinear(0, 127), "a valueless property with free text in front of the range"),
 
     rArrayF(afOne, 1, "no range"),
     rArrayF(afTwo, 2, rLinear(-0.5, 2.25), "fractional"),
@@ -291,6 +298,10 @@ inline const std::vector<PortDesc> &describe()
     v.push_back({"/pi_wide",  K_PARAMI, ST_INT, "-1000", "100000", 0, 0, {}, PA_OFF(pi_wide), "i"});
     v.push_back({"/pi_short", K_PARAMI, ST_SHORT, "-1000", "1000", 0, 0, {}, PA_OFF(pi_short), "i"});
     v.push_back({"/pi_uc",    K_PARAMI, ST_UCHAR, "0", "127", 0, 0, {}, PA_OFF(pi_uc), "i"});
+    v.push_back({"/pi_special", K_PARAMI, ST_INT, "0", "127", 0, 0, {}, PA_OFF(pi_special), "i"});
+    v.push_back({"/pi_big24",  K_PARAMI, ST_INT, "-16777217", "33554435", 0, 0, {}, PA_OFF(pi_big24), "i"});
+    v.push_back({"/pi_big31",  K_PARAMI, ST_INT, "-2000000001", "2000000001", 0, 0, {}, PA_OFF(pi_big31), "i"});
+    v.push_back({"/pi_bigmax", K_PARAMI, ST_INT, "", "100000001", 0, 0, {}, PA_OFF(pi_bigmax), "i"});
 
     v.push_back({"/pf_none", K_PARAMF, ST_FLOAT, "", "", 0, 0, {}, PA_OFF(pf_none), "f"});
     v.push_back({"/pf_midi", K_PARAMF, ST_FLOAT, "0", "127", 0, 0, {}, PA_OFF(pf_midi), "f"});
@@ -301,6 +312,7 @@ inline const std::vector<PortDesc> &describe()
     v.push_back({"/pf_max",  K_PARAMF, ST_FLOAT, "", "10.25", 0, 0, {}, PA_OFF(pf_max), "f"});
     v.push_back({"/pf_dec",  K_PARAMF, ST_FLOAT, "0.1", "0.7", 0, 0, {}, PA_OFF(pf_dec), "f"});
     v.push_back({"/pd_frac", K_PARAMF, ST_DOUBLE, "-0.5", "2.25", 0, 0, {}, PA_OFF(pd_frac), "f"});
+    v.push_back({"/pf_special", K_PARAMF, ST_FLOAT, "-0.5", "2.25", 0, 0, {}, PA_OFF(pf_special), "f"});
 
     v.push_back({"/t_bool", K_TOGGLE, ST_BOOL, "", "", 0, 0, {}, PA_OFF(t_bool), "TF"});
     v.push_back({"/t_int",  K_TOGGLE, ST_INT,  "", "", 0, 0, {}, PA_OFF(t_int), "TF"});
@@ -325,6 +337,7 @@ inline const std::vector<PortDesc> &describe()
     v.push_back({"/aiMax",   K_ARRAYI, ST_CHAR, "", "10", 2, 0, {}, PA_OFF(aiMax), "i"});
     v.push_back({"/aiInt",   K_ARRAYI, ST_INT,  "0", "127", 5, 0, {}, PA_OFF(aiInt), "i"});
     v.push_back({"/aiDozen", K_ARRAYI, ST_CHAR, "0", "127", 12, 0, {}, PA_OFF(aiDozen), "i"});
+    v.push_back({"/aiSpecial", K_ARRAYI, ST_CHAR, "0", "127", 2, 0, {}, PA_OFF(aiSpecial), "i"});
 
     v.push_back({"/afOne",  K_ARRAYF, ST_FLOAT, "", "", 1, 0, {}, PA_OFF(afOne), "f"});
     v.push_back({"/afTwo",  K_ARRAYF, ST_FLOAT, "-0.5", "2.25", 2, 0, {}, PA_OFF(afTwo), "f"});
